@@ -5,5 +5,6 @@ cd "$(dirname "$0")"
 export CARGO_NET_OFFLINE=true
 python3 tools/mkvendor.py /verif/vendor
 (cd harness && cargo build --bins -q)
+(cd harness && cargo build --release -q -p hx --bin progsim)
 (cd harness-inert && cargo build -q)
 echo "setup done"
